@@ -569,13 +569,16 @@ func (ge *GuardEngine) calleeOf(c *ssa.CallCommon) *ssa.Function {
 }
 
 func (ge *GuardEngine) calleeEnv(callee *ssa.Function, c *ssa.CallCommon, env *Env) *Env {
-	ne := &Env{params: map[*ssa.Parameter]string{}, freevars: map[*ssa.FreeVar]string{}}
+	ne := &Env{params: map[*ssa.Parameter]string{}, freevars: map[*ssa.FreeVar]string{}, paramVals: map[*ssa.Parameter]boundVal{}}
 	if env != nil { // enclosing functions' bindings stay valid inside closures
 		for k, v := range env.params {
 			ne.params[k] = v
 		}
 		for k, v := range env.freevars {
 			ne.freevars[k] = v
+		}
+		for k, v := range env.paramVals {
+			ne.paramVals[k] = v
 		}
 	}
 	args := c.Args
@@ -597,6 +600,7 @@ func (ge *GuardEngine) calleeEnv(callee *ssa.Function, c *ssa.CallCommon, env *E
 				}
 			}
 			ne.params[prm] = ge.pv.Atom(args[i], env)
+			ne.paramVals[prm] = boundVal{args[i], env}
 		}
 	}
 	// free variables of a closure: bound values evaluated in the caller's environment
@@ -746,7 +750,19 @@ func (ge *GuardEngine) guardsRec(fn *ssa.Function, env *Env, chain []string, ctx
 			cctx := append(append([]string{}, ctx...), ge.condCtx(fi, at, env)...)
 			cctx = append(cctx, extraCtx...)
 			csites := append(append([]Site{}, sites...), Site{fn, at, env})
-			out = append(out, ge.guardsRec(callee, ge.calleeEnv(callee, &call.Call, env), chain, cctx, csites, depth+1, seen)...)
+			sub := ge.guardsRec(callee, ge.calleeEnv(callee, &call.Call, env), chain, cctx, csites, depth+1, seen)
+			if expandWhenTrue && fnKind(callee) == "bool" {
+				// the caller rejects when the predicate is TRUE ("if outstanding(x) { reject }"): a returned
+				// comparison rejects when it holds; the predicate's own false-returning branches do not reject
+				for i := range sub {
+					if sub[i].Ret && len(sub[i].Chain) == len(chain)+1 {
+						sub[i].Op = negOp[sub[i].Op]
+					} else {
+						sub[i].Weak = true
+					}
+				}
+			}
+			out = append(out, sub...)
 		}
 	}
 	for _, b := range fn.Blocks {
@@ -1115,6 +1131,9 @@ func fieldStores(fn *ssa.Function, field string) []*ssa.Store {
 			}
 			s, _ := fa.X.Type().Underlying().(*types.Pointer).Elem().Underlying().(*types.Struct)
 			if s != nil && fa.Field < s.NumFields() && s.Field(fa.Field).Name() == field {
+				if selfCopyThroughLiteral(fn, st, fa) {
+					continue // "*p = T{F: p.F, …}": F keeps its value
+				}
 				out = append(out, st)
 			}
 		}
@@ -1502,4 +1521,33 @@ func callArgSet(atom string, required []func(string) bool, optional []*regexp.Re
 func reMatcher(p string) func(string) bool {
 	re := regexp.MustCompile(pat(p))
 	return re.MatchString
+}
+
+// selfCopyThroughLiteral: st initialises field F of a local composite literal with p.F, and the literal is then
+// stored whole into *p: the field is carried over, not written.
+func selfCopyThroughLiteral(fn *ssa.Function, st *ssa.Store, fa *ssa.FieldAddr) bool {
+	lit, ok := fa.X.(*ssa.Alloc)
+	if !ok {
+		return false
+	}
+	ld, ok := st.Val.(*ssa.UnOp)
+	if !ok || ld.Op != token.MUL {
+		return false
+	}
+	src, ok := ld.X.(*ssa.FieldAddr)
+	if !ok || src.Field != fa.Field || lit.Referrers() == nil {
+		return false
+	}
+	for _, r := range *lit.Referrers() {
+		whole, ok := r.(*ssa.UnOp)
+		if !ok || whole.Op != token.MUL || whole.Referrers() == nil {
+			continue
+		}
+		for _, rr := range *whole.Referrers() {
+			if ws, ok := rr.(*ssa.Store); ok && ws.Val == ssa.Value(whole) && ws.Addr == src.X {
+				return true
+			}
+		}
+	}
+	return false
 }
